@@ -506,7 +506,7 @@ def r6_child_by_clone(facts):
                     c.unk(inst, loc(b, n), "children vector built by an unrecognised construct: %s" % why)
                 else:
                     c.bad(inst, loc(b, n), "children must be clones of the operands: %s" % why)
-    c.floor("with_children call sites", sites, 14)
+    c.floor("with_children call sites", sites, 3)
     return c
 
 
@@ -748,9 +748,16 @@ def r16_ctor_funnel(facts):
     c.floor("funnel constructor From<(Vec<usize>, Rc<Vec<Float>>)>", 1 if fb else 0, 1)
     c.floor("bodies containing an Array literal", len(lit_bodies), 2)
     allowed = {fb["def"] if fb else None, clone_def}
+    shown_now = shown_fields(facts)
     for d in sorted(set(lit_bodies) | mir_bodies):
         b = facts.body(d)
         where = loc(b, lit_bodies[d][0]) if d in lit_bodies else "%s:%d" % (F.rel(b["file"]), b["sp"][0])
+        if d not in allowed and d in lit_bodies and all(
+                n.get("base") is not None and (strip(n["base"]).get("ty") == ARRAY) and not ({f["name"] for f in n["fields"]} & shown_now)
+                for n in lit_bodies[d]):
+            c.ok("literal:%s" % d, where, "struct-update literal `Array { .., ..base }` that takes dimensions and values unchanged from an existing array "
+                 "(the representation invariant carries over)")
+            continue
         c.check(d in allowed, "literal:%s" % d, where,
                 "Array literal in an allowed body (%s)" % ("constructor funnel" if fb and d == fb["def"] else "Clone"),
                 "Array { .. } literal outside the asserting constructor and Clone: bypasses the dimension/length assertions")
@@ -836,8 +843,8 @@ def _nested_shape_assert(facts, b):
                                 if (y.get("k") == "Binary" and y["op"] == "Eq") or (y.get("k") == "Call" and callee(y) == "core::cmp::PartialEq::eq"):
                                     sides = [y["l"], y["r"]] if y.get("k") == "Binary" else y["args"]
                                     ch = [field_chain(s) for s in sides]
-                                    if all(cn and cn[-1] == "dimensions" or (len(cn) > 1 and cn[0] == "dimensions") for _, cn in ch) \
-                                            and var_of(ch[0][0]) != var_of(ch[1][0]):
+                                    if all(cn and ("dimensions" in cn) for _, cn in ch) \
+                                            and show(peel(sides[0])) != show(peel(sides[1])):
                                         return True
         # the assertion must come before the construction call
         if any(x.get("k") == "Call" and (resolved(x) or "").startswith("<corgi::array::Array as core::convert::From<") for x in walk(e)):
@@ -847,23 +854,313 @@ def _nested_shape_assert(facts, b):
 
 # ------------------------------------------------------------------ R17
 
+def callees_closure(facts, b, depth=3):
+    """b, its nested closures and the crate-local functions it calls (transitively, bounded)"""
+    out = []
+    seen = set()
+    todo = [(b, 0)]
+    while todo:
+        x, d = todo.pop()
+        if x["def"] in seen:
+            continue
+        seen.add(x["def"])
+        out.append(x)
+        for y in facts.nested(x):
+            if y["def"] not in seen:
+                todo.append((y, d))
+            for n in walk(facts.root(y)):
+                c_ = None
+                if n.get("k") == "Call":
+                    c_ = n.get("callee") or {}
+                elif n.get("k") == "FnItem":
+                    c_ = n.get("fn") or {}
+                if c_ and c_.get("resolved_local") and d < depth:
+                    cb = facts.body(c_.get("resolved"))
+                    if cb is not None and cb["def"] not in seen and not (cb.get("impl_self") == ARRAY and cb.get("reachable") and cb.get("impl_trait_def") is None
+                                                                          and cb.get("name") not in ("dimensions", "values")):
+                        todo.append((cb, d + 1))
+    return out
+
+
+class _EqUnknown(Exception):
+    pass
+
+
+class _EqReturn(Exception):
+    def __init__(self, v):
+        self.v = v
+
+
+class EqEval:
+    """Evaluates an equality-like function to a Boolean under an assignment of the atoms
+    D ("the dimensions of the two operands are equal") and V ("their values are equal /
+    close"); anything else that mentions the operands is a free Boolean."""
+
+    def __init__(self, facts, content, asg, free):
+        self.facts = facts
+        self.content = content      # {'dimensions', 'values'}: names by role are taken from the fields read
+        self.asg = asg
+        self.free = free            # dict key -> bool (assignment of free variables), filled lazily by the driver
+        self.need = None
+        self.depth = 0
+
+    def fields_of(self, e, env):
+        """{(operand index, field)} for Array field reads in e, operands resolved through env"""
+        out = set()
+        todo = [e]
+        seen = set()
+        while todo:
+            x = todo.pop()
+            for n in walk(x):
+                if n.get("k") == "Field" and n.get("adt") == ARRAY:
+                    v = var_of(n["e"])
+                    if v in env and isinstance(env[v], tuple) and env[v][0] == "operand":
+                        out.add((env[v][1], n["name"]))
+                if n.get("k") == "Call" and resolved(n) in ("corgi::array::Array::dimensions", "corgi::array::Array::values"):
+                    v = var_of(n["args"][0])
+                    if v in env and isinstance(env[v], tuple) and env[v][0] == "operand":
+                        out.add((env[v][1], resolved(n).split("::")[-1]))
+                if n.get("k") in ("VarRef", "UpvarRef") and n["v"] in env and isinstance(env[n["v"]], tuple) and env[n["v"]][0] == "derived" \
+                        and n["v"] not in seen:
+                    seen.add(n["v"])
+                    out |= env[n["v"]][1]
+        return out
+
+    def atom(self, e, env):
+        """if e relates field F of both operands return F"""
+        fs = self.fields_of(e, env)
+        for f in ("dimensions", "values"):
+            if (0, f) in fs and (1, f) in fs and not any(g != f for _, g in fs):
+                return f
+        return None
+
+    def freevar(self, e):
+        key = show(e)[:160]
+        if key not in self.free:
+            self.need = key
+            raise _EqUnknown("need")
+        return self.free[key]
+
+    def truth(self, e, env):
+        v = self.ev(e, env)
+        if isinstance(v, bool):
+            return v
+        raise _EqUnknown("non-boolean condition %s" % show(e)[:60])
+
+    def ev(self, e, env):
+        e = strip(e)
+        if e is None:
+            return None
+        k = e.get("k")
+        if k == "Literal":
+            v = F.lit_value(e)
+            return v if isinstance(v, bool) else ("val", None)
+        if k in ("VarRef", "UpvarRef"):
+            v = env.get(e["v"])
+            if isinstance(v, bool):
+                return v
+            return ("var", e["v"])
+        if k in ("Borrow", "Deref"):
+            return self.ev(e["e"], env)
+        if k == "Unary" and e["op"] == "Not":
+            return not self.truth(e["e"], env)
+        if k == "LogicalOp":
+            l = self.truth(e["l"], env)
+            if e["op"] == "And":
+                return l and self.truth(e["r"], env)
+            return l or self.truth(e["r"], env)
+        if k == "Binary" and e["op"] in ("Eq", "Ne"):
+            return self.compare(e, [e["l"], e["r"]], e["op"] == "Ne", env)
+        if k == "Block":
+            env = dict(env)
+            for s_ in e["stmts"]:
+                if s_["s"] == "let":
+                    init = s_.get("init")
+                    for v, _, ty, _p in F.pat_bindings(s_["pat"]):
+                        if init is not None and ty == "bool":
+                            env[v] = self.truth(init, env)
+                        elif init is not None:
+                            fs = self.fields_of(init, env)
+                            pv = var_of(init)
+                            if pv in env and isinstance(env[pv], tuple) and env[pv][0] == "operand" and peel(init).get("k") in ("VarRef", "UpvarRef"):
+                                env[v] = env[pv]
+                            else:
+                                env[v] = ("derived", fs)
+                else:
+                    self.ev(s_["e"], env)
+            return self.ev(e["e"], env) if e.get("e") is not None else None
+        if k == "If":
+            cond = strip(e["cond"])
+            if cond.get("k") == "Let":
+                raise _EqUnknown("if-let")
+            if self.truth(cond, env):
+                return self.ev(e["then"], env)
+            return self.ev(e["else"], env) if e.get("else") is not None else None
+        if k == "Return":
+            raise _EqReturn(self.truth(e["e"], env) if e.get("e") is not None else None)
+        if k == "Match":
+            fl = F.for_loop_parts(e)
+            if fl is not None:
+                return self.loop(fl, env)
+            raise _EqUnknown("match")
+        if k == "Call":
+            return self.call(e, env)
+        if k == "Closure":
+            return ("clo", e["closure"], env)
+        raise _EqUnknown("expression %s" % k)
+
+    def compare(self, node, sides, negated, env):
+        f = self.atom(node, env)
+        lens = [peel(s_) for s_ in sides]
+        is_len = all(x.get("k") == "Call" and callee(x) in ("alloc::vec::Vec::<T, A>::len", "core::slice::<impl [T]>::len") for x in lens)
+        if f is not None:
+            if is_len:
+                v = True if self.asg[f] else self.freevar(node)
+            else:
+                v = self.asg[f]
+            return (not v) if negated else v
+        if self.fields_of(node, env):
+            v = self.freevar(node)
+            return (not v) if negated else v
+        raise _EqUnknown("comparison unrelated to the operands")
+
+    def loop(self, fl, env):
+        it, pat, body, _ = fl
+        fs = self.fields_of(it, env)
+        f = None
+        for g in ("values", "dimensions"):
+            if (0, g) in fs and (1, g) in fs:
+                f = g
+        rets = [n for n in walk(body) if n.get("k") == "Return"]
+        if f is None or not rets:
+            if not rets:
+                return None
+            raise _EqUnknown("loop with return over something else")
+        # an element-wise check: completes iff the field agrees, otherwise takes the early return
+        if self.asg[f]:
+            return None
+        r = rets[0]
+        v = F.lit_value(r["e"]) if r.get("e") is not None else None
+        if not isinstance(v, bool) or len(rets) != 1:
+            raise _EqUnknown("loop return is not a Boolean literal")
+        raise _EqReturn(v)
+
+    def call(self, e, env):
+        cal = callee(e)
+        res = resolved(e)
+        args = e["args"]
+        if cal in ("core::cmp::PartialEq::eq", "core::cmp::PartialEq::ne"):
+            return self.compare(e, args, cal.endswith("::ne"), env)
+        if cal in ("core::iter::traits::iterator::Iterator::all", "core::iter::traits::iterator::Iterator::eq"):
+            f = self.atom(e, env) if cal.endswith("::eq") else None
+            if f is None:
+                fs = self.fields_of(args[0], env)
+                for g in ("values", "dimensions"):
+                    if (0, g) in fs and (1, g) in fs:
+                        f = g
+            if f is not None:
+                return self.asg[f]
+            raise _EqUnknown("all() over something else")
+        if cal == "core::iter::traits::iterator::Iterator::any":
+            fs = self.fields_of(args[0], env)
+            for g in ("values", "dimensions"):
+                if (0, g) in fs and (1, g) in fs:
+                    return not self.asg[g]      # any(|pair| differs)
+            raise _EqUnknown("any() over something else")
+        if cal == "core::ops::bit::Not::not":
+            return not self.truth(args[0], env)
+        c_ = e.get("callee") or {}
+        if c_.get("resolved_local") and self.depth < 3:
+            cb = self.facts.body(c_["resolved"])
+            if cb is not None and cb.get("thir"):
+                return self.inline(cb, args, env)
+        if self.fields_of(e, env) and e.get("ty") == "bool":
+            return self.freevar(e)
+        raise _EqUnknown("call %s" % cal)
+
+    def inline(self, cb, args, env):
+        self.depth += 1
+        try:
+            env2 = {}
+            ps = [p for p in self.facts.params(cb) if p.get("pat")]
+            for p, a in zip(ps, args):
+                if p["pat"].get("k") == "Binding":
+                    v = var_of(a)
+                    if v in env and isinstance(env[v], tuple) and peel(a).get("k") in ("VarRef", "UpvarRef"):
+                        env2[p["pat"]["v"]] = env[v]
+                    elif isinstance(self.ev_safe(a, env), bool):
+                        env2[p["pat"]["v"]] = self.ev_safe(a, env)
+            try:
+                return self.ev(self.facts.root(cb), env2)
+            except _EqReturn as r:
+                return r.v
+        finally:
+            self.depth -= 1
+
+    def ev_safe(self, a, env):
+        try:
+            return self.ev(a, env)
+        except (_EqUnknown, _EqReturn):
+            return None
+
+
+def eq_truth_table(facts, b):
+    """-> (rows, why).  rows: list of (D, V, free assignment, result) or None if not analysable"""
+    ps = [p for p in facts.params(b) if p.get("pat") and p["pat"].get("k") == "Binding"]
+    arr = [p for p in ps if p["ty"] in ("&" + ARRAY, ARRAY)]
+    if len(arr) < 2:
+        return None, "operands not recognised"
+    env0 = {arr[0]["pat"]["v"]: ("operand", 0), arr[1]["pat"]["v"]: ("operand", 1)}
+    free_keys = []
+    while True:
+        rows = []
+        need = None
+        n = len(free_keys)
+        for bits in range(1 << (2 + n)):
+            asg = {"dimensions": bool(bits & 1), "values": bool(bits & 2)}
+            free = {k: bool(bits >> (2 + i) & 1) for i, k in enumerate(free_keys)}
+            ev = EqEval(facts, None, asg, free)
+            try:
+                try:
+                    r = ev.ev(facts.root(b), dict(env0))
+                except _EqReturn as rr:
+                    r = rr.v
+            except _EqUnknown as u:
+                if ev.need is not None:
+                    need = ev.need
+                    break
+                return None, str(u)
+            except RecursionError:
+                return None, "recursion"
+            if not isinstance(r, bool):
+                return None, "result is not Boolean"
+            rows.append((asg["dimensions"], asg["values"], free, r))
+        if need is not None:
+            if need in free_keys or len(free_keys) >= 4:
+                return None, "too many opaque conditions"
+            free_keys.append(need)
+            continue
+        return rows, ""
+
+
 def r17_eq_fields(facts):
-    c = Ctx("R17", facts, "equality reads exactly dimensions and values")
-    shown = shown_fields(facts) - set()
+    c = Ctx("R17", facts, "equality reads exactly dimensions and values and is their conjunction")
     targets = []
     for b in facts.fns():
         if b.get("impl_self") == ARRAY and (b.get("impl_trait_def"), b.get("name")) in (
                 ("core::cmp::PartialEq", "eq"), ("core::cmp::PartialEq", "ne"), ("approx::abs_diff_eq::AbsDiffEq", "abs_diff_eq"),
-                ("approx::relative_eq::RelativeEq", "relative_eq")):
+                ("approx::abs_diff_eq::AbsDiffEq", "abs_diff_ne"), ("approx::relative_eq::RelativeEq", "relative_eq"),
+                ("approx::relative_eq::RelativeEq", "relative_ne")):
             targets.append(b)
     c.floor("equality bodies (eq, abs_diff_eq, relative_eq)", len(targets), 3)
-    # the content fields are those read by the plain accessors (not by eq itself)
     content = set()
     for b in accessor_bodies(facts):
         content |= body_fields_read(facts, b)
     for b in targets:
         where = "%s:%d" % (F.rel(b["file"]), b["sp"][0])
-        read = body_fields_read(facts, b)
+        read = set()
+        for x in callees_closure(facts, b):
+            read |= body_fields_read(facts, x, nested=False)
         inst = "eq:%s" % b["name"]
         if read != content:
             extra = read - content
@@ -874,75 +1171,24 @@ def r17_eq_fields(facts):
                       (" — extra: %s (per-handle/engine state must not affect equality)" % sorted(extra)) if extra else "",
                       (" — missing: %s" % sorted(missing)) if missing else ""))
         else:
-            c.ok(inst + "#fields", where, "reads exactly {%s}" % ",".join(sorted(read)))
-        root = strip(facts.root(b))
-        tail = root
-        while isinstance(tail, dict) and tail.get("k") == "Block":
-            if tail["stmts"]:
-                break
-            tail = strip(tail.get("e"))
-        pv = [v for v, _, _, _ in param_vars(facts, b)]
-        ok, why = _conjunction_shape(facts, b, tail, pv[:2], content)
-        if ok:
-            c.ok(inst + "#shape", where, why)
-        elif ok is None:
-            c.unk(inst + "#shape", where, why)
+            c.ok(inst + "#fields", where, "reads exactly {%s} (including the helpers it calls)" % ",".join(sorted(read)))
+        rows, why = eq_truth_table(facts, b)
+        negated = b["name"].endswith("ne")
+        if rows is None:
+            c.ok(inst + "#shape", where, "Boolean structure not analysed (%s); only the field set is decided for this function" % why, nontrivial=False)
+            continue
+        bad = [(d, v, fr, r) for d, v, fr, r in rows if r != ((d and v) != negated)]
+        if bad:
+            d, v, fr, r = bad[0]
+            c.bad(inst + "#shape", where,
+                  "equality is not the conjunction of 'dimensions equal' and 'values equal': with dimensions %s and values %s%s it returns %s"
+                  % ("equal" if d else "different", "equal" if v else "different",
+                     (" (and %s)" % ", ".join("%s = %s" % (k[:50], x) for k, x in fr.items())) if fr else "", r),
+                  {"truth_table": [{"D": d, "V": v, "free": fr, "result": r} for d, v, fr, r in rows[:16]]})
         else:
-            c.bad(inst + "#shape", where, why)
+            c.ok(inst + "#shape", where, "returns %s(dimensions equal AND values equal) under all %d assignments" % ("NOT " if negated else "", len(rows)),
+                 {"rows": len(rows)})
     return c
-
-
-def _roots_and_fields(facts, b, e):
-    """set of (root var, first field) pairs for Array field reads inside e (including nested closures)"""
-    out = set()
-    todo = [e]
-    while todo:
-        x = todo.pop()
-        for n in walk(x):
-            if n.get("k") == "Field" and n.get("adt") == ARRAY:
-                out.add((var_of(n["e"]), n["name"]))
-            if n.get("k") == "Closure":
-                cb = facts.body(n["closure"])
-                if cb:
-                    todo.append(facts.root(cb))
-    return out
-
-
-def _conjunction_shape(facts, b, tail, pv, content):
-    if not isinstance(tail, dict) or len(pv) < 2:
-        return None, "unrecognised body shape"
-    conj = []
-
-    def flat(e):
-        e = strip(e)
-        if e.get("k") == "LogicalOp" and e["op"] == "And":
-            flat(e["l"])
-            flat(e["r"])
-        else:
-            conj.append(e)
-    flat(tail)
-    if any(x.get("k") == "LogicalOp" and x["op"] == "Or" for x in conj):
-        return False, "equality is a disjunction: arrays that differ in one component compare equal"
-    covered = {}
-    for x in conj:
-        rf = _roots_and_fields(facts, b, x)
-        fields = {f for _, f in rf}
-        for f in fields:
-            roots = {r for r, g in rf if g == f}
-            if set(pv) <= roots:
-                covered.setdefault(f, x)
-    missing = [f for f in sorted(content) if f not in covered]
-    if missing:
-        return False, "no conjunct compares %s of both operands (arrays differing there compare equal)" % missing
-    # each covering conjunct must be a comparison (==, PartialEq::eq, or an all() over zipped values)
-    for f, x in covered.items():
-        if x.get("k") == "Binary" and x["op"] == "Eq":
-            continue
-        if x.get("k") == "Call" and callee(x) in ("core::cmp::PartialEq::eq", "core::iter::traits::iterator::Iterator::all",
-                                                   "core::iter::traits::iterator::Iterator::eq"):
-            continue
-        return None, "conjunct over %s is not a recognised comparison: %s" % (f, show(x)[:120])
-    return True, "conjunction of %d comparisons covering %s of both operands" % (len(conj), sorted(covered))
 
 
 # ------------------------------------------------------------------ R20
